@@ -2009,6 +2009,17 @@ func (ss *ServerSession) initialize(ctx context.Context, params *InitializeParam
 	if params == nil {
 		return nil, fmt.Errorf("%w: \"params\" must be be provided", jsonrpc2.ErrInvalidParams)
 	}
+	// The handshake never yields 2026-07-28 or later: a client asking for such a
+	// version is answered with the latest legacy one. The session's recorded
+	// version decides whether it is treated as a legacy session (list-changed
+	// notifications without subscriptions/listen, server-initiated requests),
+	// so record the version in force rather than the one asked for.
+	negotiated := negotiatedVersion(params.ProtocolVersion)
+	if params.ProtocolVersion >= protocolVersion20260728 {
+		p := *params
+		p.ProtocolVersion = negotiated
+		params = &p
+	}
 	var wasInit bool
 	ss.updateState(func(state *ServerSessionState) {
 		wasInit = state.InitializeParams != nil
@@ -2025,7 +2036,7 @@ func (ss *ServerSession) initialize(ctx context.Context, params *InitializeParam
 	return &InitializeResult{
 		// TODO(rfindley): alter behavior when falling back to an older version:
 		// reject unsupported features.
-		ProtocolVersion: negotiatedVersion(params.ProtocolVersion),
+		ProtocolVersion: negotiated,
 		Capabilities:    s.capabilities(),
 		Instructions:    s.opts.Instructions,
 		ServerInfo:      s.impl,
